@@ -404,6 +404,12 @@ def _tooler(fn, captures):
         raise TypeError(f"{fn} cannot be tooled")
 
     with _tooling_lock:
+        if is_tooled(fn) and not hasattr(fn, "__ptera_stack__"):
+            # fn was tooled for good with @tooled: every variable already
+            # interacts, and narrowing the instrumentation to the variables of
+            # this selector would starve the overlays that rely on the rest.
+            return fn
+
         if hasattr(fn, "__ptera_stack__"):
             st = fn.__ptera_stack__
         else:
